@@ -230,7 +230,7 @@ func subst(text string, m Mode) string {
 	// raw text uses the placeholders «Iter[T]», «Yield», «YieldFrom», «RANGE(x)»
 	r := text
 	for {
-		i := strings.Index(r, "«Iter[")
+		i := strings.LastIndex(r, "«Iter[") // innermost first: placeholders may nest
 		if i < 0 {
 			break
 		}
